@@ -127,7 +127,9 @@ type Cluster struct {
 	currentHostIndex int
 	listeners        []ClusterListener
 	addListener      chan ClusterListener
-	events           chan *frame.Frame
+	events           chan struct{} // Signals that `pendingEvents` isn't empty
+	eventsMu         *sync.Mutex
+	pendingEvents    []*frame.Frame
 	outageMu         sync.Mutex
 	outageTime       time.Time
 	// the following are immutable after start up
@@ -144,7 +146,8 @@ func ConnectCluster(ctx context.Context, config ClusterConfig) (*Cluster, error)
 		controlConn:      nil,
 		hosts:            nil,
 		currentHostIndex: 0,
-		events:           make(chan *frame.Frame),
+		events:           make(chan struct{}, 1),
+		eventsMu:         &sync.Mutex{},
 		addListener:      make(chan ClusterListener),
 		listeners:        make([]ClusterListener, 0),
 	}
@@ -184,8 +187,24 @@ func (c *Cluster) Listen(listener ClusterListener) error {
 	}
 }
 
+// OnEvent is called by the control connection's reader. The same reader delivers the responses the event loop waits
+// for when it refreshes the hosts, so it can't wait for the event loop here: the event is queued (in order).
 func (c *Cluster) OnEvent(frame *frame.Frame) {
-	c.events <- frame
+	c.eventsMu.Lock()
+	c.pendingEvents = append(c.pendingEvents, frame)
+	c.eventsMu.Unlock()
+	select {
+	case c.events <- struct{}{}:
+	default:
+	}
+}
+
+func (c *Cluster) takePendingEvents() []*frame.Frame {
+	c.eventsMu.Lock()
+	events := c.pendingEvents
+	c.pendingEvents = nil
+	c.eventsMu.Unlock()
+	return events
 }
 
 func (c *Cluster) connect(ctx context.Context, endpoint Endpoint, initial bool) (err error) {
@@ -459,22 +478,24 @@ func (c *Cluster) stayConnected() {
 			case <-refreshTimer.C:
 				c.refreshHosts()
 				pendingRefresh = false
-			case event := <-c.events:
+			case <-c.events:
 				window := getOrUseDefault(c.config.RefreshWindow, DefaultRefreshWindow)
-				switch msg := event.Body.Message.(type) {
-				case *message.TopologyChangeEvent:
-					if !pendingRefresh {
-						refreshTimer = time.NewTimer(window)
-						pendingRefresh = true
-					}
-				case *message.StatusChangeEvent:
-					if !pendingRefresh && msg.ChangeType == primitive.StatusChangeTypeUp {
-						refreshTimer = time.NewTimer(window)
-						pendingRefresh = true
-					}
-				case *message.SchemaChangeEvent:
-					for _, listener := range c.listeners {
-						listener.OnEvent(&SchemaChangeEvent{Message: msg})
+				for _, event := range c.takePendingEvents() {
+					switch msg := event.Body.Message.(type) {
+					case *message.TopologyChangeEvent:
+						if !pendingRefresh {
+							refreshTimer = time.NewTimer(window)
+							pendingRefresh = true
+						}
+					case *message.StatusChangeEvent:
+						if !pendingRefresh && msg.ChangeType == primitive.StatusChangeTypeUp {
+							refreshTimer = time.NewTimer(window)
+							pendingRefresh = true
+						}
+					case *message.SchemaChangeEvent:
+						for _, listener := range c.listeners {
+							listener.OnEvent(&SchemaChangeEvent{Message: msg})
+						}
 					}
 				}
 			}
